@@ -184,6 +184,8 @@ def main(c):
     c.notes.append("NOT proved: that the Daleckii-Krein tensor is the Frechet derivative (assumed mathematics); the 3D branches with two or three equal eigenvalues "
                    "(traced and tied by agreement/finite differences only); composition with the eigen solvers (C03); rounding")
     if not res.ok:
+        if not res.theorems:
+            c.coverage["obligations"] += 5 if c.quick() else 6   # Properties files were not reached
         if found:
             c.notes.append("proof obligations %s no longer check; concrete failing inputs reported: %s" % ([f[2] for f in res.failed], sorted(set(found))[:6]))
         else:
